@@ -396,6 +396,42 @@ theorem decorate_twice (url : Bytes) (k1 k2 : Nat) (n1 n2 out1 out2 : Bytes) (u 
   rw [ho2, ho1]
   simp [queryWith, pathOrSlash_idem, List.append_assoc]
 
+/-! ### `Display` then `from_str` is the identity on parsed URLs -/
+
+/-- The re-parse theorems joined: scheme hypothesis replaced by "generic schemes are well formed". -/
+theorem reparse_any (u : Parts) (hu : WF u) (kv : Bytes)
+    (hs : ∀ sc, u.scheme = some (.other sc) → OtherScheme sc)
+    (hkvq : kv.all queryChar = true) (hkv35 : (35 : UInt8) ∉ kv)
+    (hlen : (schemePrefix u.scheme ++ u.authority ++ (pathOrSlash u.path ++ 63 :: queryWith u.query kv)).length ≤ 65534) :
+    parse (schemePrefix u.scheme ++ u.authority ++ (pathOrSlash u.path ++ 63 :: queryWith u.query kv)) =
+      .ok ⟨u.scheme, u.authority, pathOrSlash u.path, some (queryWith u.query kv)⟩ := by
+  cases hsc : u.scheme with
+  | none => rw [← hsc]; exact reparse u hu kv (Or.inl hsc) hkvq hkv35 hlen
+  | some sch =>
+    cases sch with
+    | http => rw [← hsc]; exact reparse u hu kv (Or.inr (Or.inl hsc)) hkvq hkv35 hlen
+    | https => rw [← hsc]; exact reparse u hu kv (Or.inr (Or.inr hsc)) hkvq hkv35 hlen
+    | other sc => rw [← hsc]; exact reparse_other u hu kv sc hsc (hs sc hsc) hkvq hkv35 hlen
+
+/-- **parse_print_query.** Printing a parsed URL that has a query and parsing the text again gives
+the same parts (an empty path read as "/"): `Display` and `from_str` of `http::Uri` are mutually
+inverse on everything the library hands to the HTTP client with a query — in particular on every
+decorated URL. -/
+theorem parse_print_query (url : Bytes) (u : Parts) (q : Bytes) (hp : parse url = .ok u)
+    (hq : u.query = some q) (hlen : (print u).length ≤ 65534) :
+    parse (print u) = .ok { u with path := pathOrSlash u.path } := by
+  have hu := parse_wf url u hp
+  have hu' : WF { u with query := none } :=
+    ⟨hu.auth_nodelim, hu.auth_abs, hu.origin, hu.path_chars, hu.path_start, fun _ h => by cases h⟩
+  obtain ⟨hq1, hq2⟩ := hu.query_ok q hq
+  have hpr : print u = schemePrefix u.scheme ++ u.authority ++ (pathOrSlash u.path ++ 63 :: q) := by
+    simp [print, querySuffix, hq, List.append_assoc]
+  rw [hpr] at hlen ⊢
+  have := reparse_any { u with query := none } hu' q
+    (fun sc h => parse_other_scheme url u sc hp h) hq1 hq2 (by simpa [queryWith] using hlen)
+  simp only [queryWith] at this
+  rw [this, ← hq]
+
 /-! ### Non-vacuity -/
 
 -- "ftp+x" is a generic scheme; "Http" is not
